@@ -33,7 +33,7 @@ PROBES = ['unknown-object', 'unknown-method', 'invalid-args', 'interface-omitted
           'same-member-two-interfaces', 'dbusCaller-requested', 'inherited-interface-called', 'interface-bound-across-classes',
           'unencodable-return', 'invalid-error-name', 'peer-ping', 'several-calls-in-flight',
           'nested-exception-class', 'deferred-already-fired', 'export-over-exported-path', 'base-class-instance-first', 'call-after-unexport',
-          'two-callers-same-serial']
+          'two-callers-same-serial', 'error-name-per-instance']
 COMPONENTS = {
     'real': ['txdbus.objects.DBusObjectHandler.handleMethodCallMessage / DBusObject.executeMethod',
              'txdbus.client.DBusClientConnection', 'txdbus.message / marshal', 'twisted Deferred'],
@@ -57,6 +57,14 @@ class BadNamedError(Exception):
 
 class OddError(Exception):
     pass
+
+
+class InstanceNamedError(Exception):
+    """one class, the DBus error name given per instance (the idiom of txdbus.bus.DError)"""
+
+    def __init__(self, name, text):
+        Exception.__init__(self, text)
+        self.dbusErrorName = name
 
 
 class Outer:
@@ -127,6 +135,13 @@ def scenario(ctx):
             rec['exc'] = (cls, text)
             if kind == 4:
                 sim.probe('invalid-error-name')
+            if kind == 3 and ds.flag(0.4):
+                nm = ds.pick(['org.sim.Error.NotFound', 'org.sim.Error.Busy', 'org.sim.Error.Denied',
+                              'not valid either'])
+                rec['exc'] = (InstanceNamedError, text)
+                rec['exc_name'] = nm
+                sim.probe('error-name-per-instance')
+                raise InstanceNamedError(nm, text)
             raise cls(text)
         if kind == 5:
             rec['outcome'] = 'value'
@@ -494,7 +509,9 @@ def scenario(ctx):
                                 'unencodable return value answered %r' % (r.describe(),))
         else:
             cls, text = rec['exc']
-            if cls is NamedError:
+            if cls is InstanceNamedError:
+                name = rec['exc_name'] if '.' in rec['exc_name'] else 'org.txdbus.InvalidErrorName'
+            elif cls is NamedError:
                 name = NamedError.dbusErrorName
             elif cls in (BadNamedError, NonAsciiError, LongNameError):
                 name = 'org.txdbus.InvalidErrorName'
